@@ -23,6 +23,7 @@ def run(tier, seed, pid='C16', pack=None):
     items = [(S.suitesparse_solve(pid, 'umfpack'), None, S.replay_solvers), (S.suitesparse_solve(pid, 'klu'), None, S.replay_solvers), (S.suitesparse_linsolve(pid, 'KLUSolver', 'klu'),),
              (S.suitesparse_linsolve(pid, 'UMFPACKSolver', 'umfpack'),), (S.spsolve_solve(pid), None, S.replay_solvers), (S.refresh_symbolic(pid),), (S.spmatrix_to_csc(pid),),
              (S.solver_dispatch(pid, 'solve'), None, S.replay_dispatch), (S.solver_dispatch(pid, 'linsolve'), None, S.replay_dispatch)]
+    items += [(c, None, S.replay_solvers) for c in S.wrappers(pid)]
     run_contracts(pack, items)
     # the two accumulation modes of the island patch of gy leave the same diagonal (in place: ipset; rebuild: gy + spmatrix)
     from contracts import C03_assembly as A3
